@@ -202,16 +202,21 @@ def interp(ast, env, cx):
         body, binds = ast[1], ast[2]
         opts = ast[3] if k != "nout" else {}
         names = list(binds)
-        cx2 = merge_ctx(cx, opts["ctx"]) if "ctx" in opts else cx
+        # successive update_context calls on one task accumulate into ONE override (each merged
+        # into the previous override), which is then merged into the parent's context: with a
+        # mapping/non-mapping clash between two overrides that is not the same as merging them into
+        # the parent's context one after the other
+        over = dict(opts["ctx"]) if "ctx" in opts else {}
         for c_ in opts.get("pctx", []):
-            cx2 = merge_ctx(cx2, c_)
+            over = merge_ctx(over, c_)
         if "ctxe" in opts:
             # expression-valued overrides are task options: evaluated (by the parent job) before use
             keys = list(opts["ctxe"])
             ov = par([interp(opts["ctxe"][key], env, cx) for key in keys])
             if ov.errs or len(ov.oks) != 1:
                 return Out([], ov.errs, True) if not ov.errs else Out([], ov.errs)
-            cx2 = merge_ctx(cx2, dict(zip(keys, ov.oks[0])))
+            over = merge_ctx(over, dict(zip(keys, ov.oks[0])))
+        cx2 = merge_ctx(cx, over) if over or "ctx" in opts or "pctx" in opts or "ctxe" in opts else cx
 
         def call(vals):
             env2 = dict(zip(names, vals))
